@@ -14,7 +14,7 @@ import itertools
 from collections import OrderedDict
 
 from .core import AnalysisError
-from .absint import (Interp, Obj, ClassVal, AbsRaise, Unsupported, Native, NativeObj, Closure,
+from .absint import (Interp, Obj, ClassVal, AbsRaise, Unsupported, Native, NativeObj, Closure, Bound,
                      Unknown)
 from . import common
 
@@ -776,3 +776,65 @@ ALIAS.update({"used": LAWS["explore_tzids"][0], "missing": LAWS["explore_tzids"]
               "close": LAWS["explore_tzids"][3], "close-order": "added in sorted order",
               "close-total": "add_missing_timezones fails only for nothing",
               "idempotent": LAWS["explore_tzids"][5]})
+
+
+# ---------------------------------------------------------------------------
+# C01 / C12: building a time zone from a parsed VTIMEZONE must not change the component
+def _snapshot(it, c):
+    return (c.cls.name, tuple((k, id(v) if isinstance(v, Obj) else repr(v)) for k, v in c.items.items()),
+            tuple(_snapshot(it, s) for s in c.attrs.get("subcomponents", [])))
+
+
+def explore_create_timezone(ctx):
+    """ZONEINFO.create_timezone / PYTZ.create_timezone on a VTIMEZONE whose first
+    conversion attempt is refused (the retry path strips X- properties): the
+    component handed in - the one the parser returns - must be left unchanged."""
+    model = ctx.model
+    fails = []
+    n = 0
+    for cq in ("timezone.zoneinfo.ZONEINFO", "timezone.pytz.PYTZ"):
+        ci = model.cls(cq)
+        f = model.lookup_method(ci, "create_timezone")
+        if f is None:
+            raise AnalysisError(f"anchor vanished: {cq}.create_timezone")
+        for refuse_first in (True, False):
+            it = TreeInterp(model)
+            calls = []
+
+            def inner(self_, args, kwargs, calls=calls, refuse_first=refuse_first):
+                calls.append(args[-1])
+                if refuse_first and len(calls) == 1:
+                    raise AbsRaise("ValueError", "dateutil refuses the component")
+                return ("tzinfo", len(calls))
+            helper = model.lookup_method(ci, "_create_timezone")
+            if helper is None:
+                continue        # this provider converts in one step; nothing to stub
+            it.contracts[helper.qualname] = inner
+            tz = it.instantiate(model.cls("cal.Timezone"), [], {})
+            tz.items["TZID"] = "Custom/Zone"
+            tz.items["X-LIC-LOCATION"] = "Custom/Zone"
+            for q in ("cal.TimezoneStandard", "cal.TimezoneDaylight"):
+                sub = it.instantiate(model.cls(q), [], {})
+                sub.items["TZNAME"] = "X"
+                sub.items["X-OBSERVANCE-SOURCE"] = "somewhere"
+                tz.attrs["subcomponents"].append(sub)
+            before = _snapshot(it, tz)
+            n += 1
+            try:
+                prov = Obj(ci)
+                it.call(Bound(Closure(f), prov), [tz], {})
+            except AbsRaise as e:
+                fails.append(("pure", f"{ci.name}.create_timezone raises {e.cls_name} on the retry path",
+                              dict(provider=ci.name)))
+                continue
+            except Unsupported as e:
+                raise AnalysisError(f"{cq}.create_timezone leaves the abstract interface: {e}")
+            if _snapshot(it, tz) != before:
+                fails.append(("pure", f"{ci.name}.create_timezone modifies the VTIMEZONE component it is "
+                              f"given (the one Component.from_ical returns): properties of it or of its "
+                              f"observances are removed", dict(provider=ci.name, retry=refuse_first)))
+    return n, fails
+
+
+LAWS["explore_create_timezone"] = ["pure"]
+ALIAS["pure"] = "pure"
